@@ -309,6 +309,17 @@ def gen_faults(rng, nops, kinds=("relist", "dup", "clock", "abort", "restart", "
 
 
 def gen_ops(rng, ntrace, cfg, profile, ntrace2=None):
+    """Operation list for a World-A session (see _gen_ops).  In a quarter of the sessions with several operations
+    the `unique` flag is chosen per call instead of per session: the format of one answer must not depend on what an
+    earlier call asked for."""
+    ops = _gen_ops(rng, ntrace, cfg, profile, ntrace2)
+    if len(ops) >= 2 and rng.random() < 0.25:
+        for op in ops[1:]:
+            op["unique"] = rng.random() < 0.5
+    return ops
+
+
+def _gen_ops(rng, ntrace, cfg, profile, ntrace2=None):
     """Operation list for a World-A session.  ntrace2: length of an alternative trace that may be
     matched on the same matcher object (ops with "alt": true)."""
     unique = rng.random() < 0.4
